@@ -170,6 +170,8 @@ def run_property(mod, tier: str, seed: int, replay: str | None = None, runs_over
         c = dict(json.loads(open(f).read())["case"])
         c["_fixed_id"] = "reg:" + os.path.basename(f)
         fixed.append(c)
+    if hasattr(mod, "group_key"):
+        items.sort(key=mod.group_key)
     items = fixed + items + seeds[:k_self][::-1]
 
     results, problems = simkit.run_pool(
